@@ -510,6 +510,80 @@ def _iteration_counter(b, op):
     return True
 
 
+def _field_writes_anywhere(F, adt, name):
+    """(body, block, stmt) for every assignment through a place whose last projection is field `name` of `adt`"""
+    out = []
+    for b in F.bodies.values():
+        for i, si, s in b.assigns():
+            pj = place_proj(s["lhs"])
+            last = next((e for e in reversed(pj) if isinstance(e, dict) and "f" in e), None) if pj else None
+            if last is not None and last.get("n") == name and last.get("adt") == adt:
+                out.append((b, i, s))
+    return out
+
+
+def _field_event_counter(F, b, a):
+    if not (isinstance(a, tuple) and a and a[0] == "field" and isinstance(a[1], tuple) and a[1] and a[1][0] == "param" and a[1][1] == 0 and b.kind == "method"):
+        return False
+    name = a[2]
+    sty = b.local_ty(1).replace("'_ ", "")
+    if not sty.startswith("&mut "):
+        return False
+    adt = sty[5:].strip()
+    ws = _field_writes_anywhere(F, adt, name)
+    if not ws or any(wb.id != b.id for wb, _, _ in ws):
+        return False        # somebody else writes the counter too
+    # in this method: only `+ 1`, never in a loop, at most one increment per call
+    incs = []
+    for wb, i, s in ws:
+        rv = s["rv"]
+        q = op_place(rv.get("op", {})) if rv["k"] == "use" else None
+        pj = place_proj(q) if q is not None else None
+        td = b.defs().get(q["l"], []) if q is not None else []
+        if not (pj and len(pj) == 1 and isinstance(pj[0], dict) and pj[0].get("f") == 0 and len(td) == 1 and td[0][0] == "assign"
+                and td[0][3]["rv"]["k"] == "bin" and td[0][3]["rv"]["op"] == "AddWithOverflow" and (op_const(td[0][3]["rv"]["b"]) or {}).get("int") == "1"):
+            return False
+        if b.in_loop(i):
+            return False
+        incs.append(i)
+    for i in incs:
+        after = set()
+        for s_ in b.succ(i):
+            after |= b.reach_from(s_)
+        if any(o in after for o in incs):
+            return False
+    # every construction of the struct starts the counter at 0 (or leaves it to Default)
+    for cb in F.bodies.values():
+        for i, si, s in cb.assigns():
+            rv = s["rv"]
+            if rv["k"] == "agg" and rv.get("adt") == adt and name in (rv.get("fields") or []):
+                k = op_const(rv["ops"][rv["fields"].index(name)])
+                if cb.mac and cb.mac.startswith("derive:"):
+                    continue
+                if k is None or k.get("int") != "0":
+                    return False
+    # every caller: once per iteration of an iterator-driven loop, on a local instance
+    sites = [(cb, ci, ct) for cb, ci, ct in F.call_sites(lambda cal, bid=b.id: cal == bid) if user_written(F, cb)]
+    if not sites:
+        return False
+    for cb, ci, ct in sites:
+        r = root_of_operand(cb, ct["args"][0])
+        if not r or r[0] <= cb.argc:
+            return False
+        inner = [(h, bl) for h, bl in cb.loops() if ci in bl]
+        if not inner:
+            return False
+        h, bl = min(inner, key=lambda x: len(x[1]))
+        if not any(parse_callee(cb.term(x).get("callee", ""))[2] == "next" for x in bl if cb.term(x)["k"] == "call"):
+            return False
+        after = set()
+        for s_ in cb.succ(ci):
+            after |= cb.reach_from(s_, removed_blocks=(h,))
+        if ci in after:
+            return False
+    return True
+
+
 def _is_count_of(t):
     return isinstance(t, tuple) and t and t[0] == "call" and parse_callee(t[1])[2] in ("count", "len")
 
@@ -636,10 +710,14 @@ def _discharge_assert(F, b, tb, i, t, msg, ops):
         return None
     if msg.startswith("Overflow(Add)") or msg.startswith("Overflow(Sub)"):
         tys = [_op_ty(b, o) for o in t["ops"]]
+        if tys[0] == "?" and len(tys) > 1 and tys[1] not in ("?", ""):
+            tys[0] = tys[1]     # both operands of a checked +/- have one type
         a, c = ops
         if tys[0] == "usize":
             if msg.startswith("Overflow(Add)") and _is_index_like(b, tb, t["ops"][0], a) and _is_index_like(b, tb, t["ops"][1], c):
                 return "usize operands bounded by the length of a live allocation (≤ isize::MAX each)"
+            if msg.startswith("Overflow(Add)") and c == ("int", 1) and _field_event_counter(F, b, a):
+                return "event counter kept in a struct field: starts at 0, grows by 1 at most once per call, and the only caller invokes the method at most once per iteration of a loop over an in-memory collection, on a local instance"
             if msg.startswith("Overflow(Add)") and c == ("int", 1) and _iteration_counter(b, t["ops"][0]):
                 return "event counter: starts at a constant and grows by 1 at most once per iteration of a loop over an in-memory collection (≤ isize::MAX iterations)"
             if msg.startswith("Overflow(Sub)") and _is_count_of(a) and isinstance(c, tuple) and c[0] == "field" and c[2] == "0" and _same_sequence(a, c):
@@ -708,6 +786,7 @@ def _op_ty(b, o):
     if k is not None:
         return k.get("ty", "")
     if p is not None:
+        # a projected place: the other operand of a checked arithmetic op has the same type
         return "?"
     return ""
 
